@@ -152,7 +152,7 @@ class KDTree:
                 dist_left = self.nodes[node.left].bb.distance(pt)
                 dist_right = self.nodes[node.right].bb.distance(pt)                
                 for dist,child in sorted([(dist_left, node.left), (dist_right,node.right)]):
-                    if furthest_so_far > dist:
+                    if n_found<k or furthest_so_far > dist: # a child can only be skipped once k candidates are held
                         queue.append(child)
         return [found.pop().x for _ in range(n_found)][::-1]
     
